@@ -1,6 +1,6 @@
 (* C10 — Responses are framed exactly: ; between units, , between data, one final NL
    Statements only: each theorem is closed by `exact` of a lemma proved in the *_proofs.v files. *)
-From VF Require Import Base Gen_Errors Gen_Consts Fmt Lexer Grammar Response Tree HeaderSpec MessageSpec Resp_proofs Message_proofs Message_proofs2.
+From VF Require Import Base Gen_Errors Gen_Consts Fmt Lexer Grammar Response Tree HeaderSpec MessageSpec Resp_proofs Message_proofs Message_proofs2 ResponseDecoder ResponseDecoder_proofs.
 Open Scope N_scope.
 
 Section C10_statements.
@@ -48,6 +48,29 @@ Theorem C10_message_semantics : forall (root : tree D) (m : msg) (d : D) (f : fm
   run root (render_msg m) d f = Val (spec_message root m d f).
 Proof. apply message_semantics. Qed.
 
+Theorem C10_response_decodes : forall units,
+  units <> [] -> Forall (fun ds => ds <> [] /\ forallb decodable ds = true) units ->
+  decode_response (emit_message units) = Some (map (flat_map items_of) units).
+Proof. apply response_decodes. Qed.
+
+Theorem C10_framed_run_decodes : forall (D : Type) (root : tree D) input d r units,
+  run root input d (mkFmt None []) = Val r -> r_err r = None ->
+  unit_texts (r_trace r) = map unit_text units ->
+  units <> [] -> Forall (fun ds => ds <> [] /\ forallb decodable ds = true) units ->
+  decode_response (r_out r) = Some (map (flat_map items_of) units).
+Proof. apply framed_run_decodes. Qed.
+
+Theorem C10_unit_count_preserved : forall units,
+  units <> [] -> Forall (fun ds => ds <> [] /\ forallb decodable ds = true) units ->
+  exists dec, decode_response (emit_message units) = Some dec /\ length dec = length units.
+Proof. apply unit_count_preserved. Qed.
+
+Theorem C10_item_count_preserved : forall units,
+  units <> [] -> Forall (fun ds => ds <> [] /\ forallb decodable ds = true) units ->
+  exists dec, decode_response (emit_message units) = Some dec
+    /\ map (@length item) dec = map (fun ds => list_sum (map n_elements ds)) units.
+Proof. apply item_count_preserved. Qed.
+
 End C10_statements.
 
 Print Assumptions C10_framing.
@@ -57,3 +80,7 @@ Print Assumptions C10_spec_message_framing.
 Print Assumptions C10_message_semantics_empty.
 Print Assumptions C10_message_semantics_trailing_separator.
 Print Assumptions C10_message_semantics.
+Print Assumptions C10_response_decodes.
+Print Assumptions C10_framed_run_decodes.
+Print Assumptions C10_unit_count_preserved.
+Print Assumptions C10_item_count_preserved.
